@@ -3,6 +3,8 @@ import Hms.GenBridge
 import HmsProofs.Tables
 import HmsProofs.C07
 import HmsProofs.Lemmas.PrintPratt
+import HmsProofs.Lemmas.PrintStr
+import HmsProofs.Lemmas.PrintOpt
 /-!
 # C19 — printing and optimising a program preserve its meaning
 
@@ -90,5 +92,79 @@ theorem print_parse_grouped_example :
         (.pre .minus (.grp (.bin (.atom .int) .power (.atom .int))))))
       = .ok (.bin (.atom .int) .plus (.pre .minus (.grp (.bin (.atom .int) .power (.atom .int)))), []) := by
   rfl
+
+/-! ## (b) String literals: print, then lex -/
+
+/-- For every string value `s`, the literal the printers write — `quote (escape s)`, the model of
+`ast.EscapeString` between double quotes — is lexed (by the proved lexer model of C06) as exactly
+one token: a string token whose value is `s`, followed by the end of the input, without error. -/
+theorem string_literal_roundtrip (s : List Char) :
+    (Lex.lexAll (quote s)).tokens.map (fun t => (t.kind, t.value)) = [(TokKind.string, s)]
+      ∧ (Lex.lexAll (quote s)).err = none ∧ (Lex.lexAll (quote s)).eof.isSome = true := by
+  obtain ⟨h1, h2, h3⟩ := Lemmas.Print.lexAll_quote s
+  refine ⟨?_, h2, h3⟩
+  rw [h1]
+  rfl
+
+/-- Escaping is needed: the text between quotes that the unrepaired parser-AST printer wrote for
+the value `"` (finding R1: the value itself, unescaped) does not lex to one string token. -/
+theorem unescaped_literal_counterexample :
+    (Lex.lexAll ('"' :: ['"'] ++ ['"'])).tokens.map (fun t => (t.kind, t.value)) ≠ [(TokKind.string, ['"'])] := by
+  decide
+
+/-! ## (c) The optimizer -/
+
+open Hms.Core Lemmas.Print in
+/-- The optimizer's output behaves exactly like its input: for every program, every recorded-type
+oracle `isNever` under which statements of recorded type `never` do not complete normally, every
+fuel and entry function, the specification semantics gives the same outcome (output, trigger
+trace, completion or fatal error) for the optimised program. -/
+theorem optimize_preserves (cfg : Cfg) (isNever : Stmt → Bool) (h : NeverDiverges cfg isNever)
+    (fuel : Nat) (entry : String) :
+    runProgram { cfg with prog := optimizeProgram isNever cfg.prog } fuel entry = runProgram cfg fuel entry :=
+  Lemmas.Print.runProgram_optimize cfg isNever h fuel entry
+
+open Hms.Core Lemmas.Print in
+/-- The same for a single block, in any state: the block the optimizer builds evaluates to the
+same result and final state as the original, at any fuel. -/
+theorem optimize_block_preserves (cfg : Cfg) (isNever : Stmt → Bool) (h : NeverDiverges cfg isNever)
+    (b : Block) (fuel : Nat) (st : St) :
+    evalBlock cfg fuel (optimizeBlock isNever b) st = evalBlock cfg fuel b st := by
+  rw [Lemmas.Print.evalBlock_optimize cfg isNever h b fuel]
+
+open Hms.Core Lemmas.Print in
+/-- The hypothesis is a theorem for `return`, `break` and `continue` (non-vacuity: dropping what
+follows one of them preserves every program unconditionally). -/
+theorem optimize_preserves_control (cfg : Cfg) (fuel : Nat) (entry : String) :
+    runProgram { cfg with prog := optimizeProgram isControl cfg.prog } fuel entry = runProgram cfg fuel entry :=
+  optimize_preserves cfg isControl (control_never_diverges cfg) fuel entry
+
+open Hms.Core in
+/-- The optimizer only ever drops a suffix of a statement list, and the number of statements it
+keeps is determined by the flags alone (what the tie with the Go optimizer compares). -/
+theorem optimize_keeps_prefix (isNever : Stmt → Bool) (stmts : List Stmt) :
+    takeThrough isNever stmts <+: stmts
+      ∧ (takeThrough isNever stmts).length = keptCount (stmts.map isNever) :=
+  ⟨Lemmas.Print.takeThrough_prefix isNever stmts, Lemmas.Print.keptCount_eq isNever stmts⟩
+
+open Hms.Core Lemmas.Print in
+/-- The hypothesis is needed (finding A5): `match 0 { 1 => { return; } }` has no default arm and
+only diverging arms, so the analyzer records `never` for it — but no arm matches and it completes.
+The optimizer drops the `1 / 0;` that follows: the optimised block completes normally, the
+original ends in a fatal error. (Kernel-checked evaluation of the specification semantics.) -/
+theorem optimize_needs_never_diverges_counterexample :
+    recordedNever (fun _ => false) a5Match = true
+      ∧ isOk (evalBlock { prog := [] } 8 (optimizeBlock (recordedNever fun _ => false) a5Block) {}) = true
+      ∧ isFatal (evalBlock { prog := [] } 8 a5Block {}) = true
+      ∧ ¬ NeverDiverges { prog := [] } (recordedNever fun _ => false) := by
+  refine ⟨by rfl, by decide, by decide, ?_⟩
+  intro h
+  have := optimize_block_preserves { prog := [] } (recordedNever fun _ => false) h a5Block 8 {}
+  have h1 : isOk (evalBlock { prog := [] } 8 (optimizeBlock (recordedNever fun _ => false) a5Block) {}) = true := by
+    decide
+  have h2 : isOk (evalBlock { prog := [] } 8 a5Block {}) = false := by decide
+  rw [this] at h1
+  rw [h1] at h2
+  cases h2
 
 end HmsProofs.C19
